@@ -278,11 +278,19 @@ pub fn run(cfg: &Cfg, rep: &mut Report) {
 
   // thread part: producer threads and late subscribers on BehaviorSubject<_, SubjectThreads> (baton scheduler)
   let n = cfg.n(6_000, 600_000);
+  super::thr::systematic_families(cfg, rep, 0xC12A, &[1, 1, 1], &|s, _| {
+    for t in s.threads.iter_mut() {
+      t.retain(|op| !matches!(op, super::thr::TOp::Complete(_) | super::thr::TOp::Error(_) | super::thr::TOp::Unsub(_) | super::thr::TOp::UnsubSubject));
+      if t.is_empty() {
+        t.push(super::thr::TOp::Next(0));
+      }
+    }
+  }, &|o, _| super::thr::behavior_oracle(o));
   super::thr::campaign(cfg, rep, "thr", n, 0xC12F, &mut |r: &mut Rng| {
     let mut s = super::thr::random_scen(r, 1);
     // two producers (+ one late subscriber), no terminal: the statement's thread scenario
     for t in s.threads.iter_mut() {
-      t.retain(|op| !matches!(op, super::thr::TOp::Complete(_) | super::thr::TOp::Error(_) | super::thr::TOp::Unsub(_)));
+      t.retain(|op| !matches!(op, super::thr::TOp::Complete(_) | super::thr::TOp::Error(_) | super::thr::TOp::Unsub(_) | super::thr::TOp::UnsubSubject));
       if t.is_empty() {
         t.push(super::thr::TOp::Next(0));
       }
